@@ -62,7 +62,8 @@ C13Execs == {VX, VXother}
 \* long-running process serving several EventExecTxList requests for the block at once
 C13Conds == {[proc |-> p, gmp |-> n] : p \in {"long", "fresh"}, n \in {1, 2, 16}} \cup
             {[proc |-> "conc", gmp |-> n] : n \in {2, 16}}
-C13Acts == {"gc", "query", "side", "checktx"}
+\* chain: another chain instance is started (genesis on empty databases) in the long-running process
+C13Acts == {"gc", "query", "side", "checktx", "chain"}
 C13CondsS == {[proc |-> "long", gmp |-> 1], [proc |-> "fresh", gmp |-> 16]}
 C13ActsS == {"side"}
 NoConds == {}
